@@ -244,6 +244,12 @@ class Interp:
                         return False
                 elif isinstance(b.v, bytes) and a.view == 'bytes':
                     pb_ = ''.join(format(x, '08b') for x in b.v)
+                elif isinstance(b.v, int) and not isinstance(b.v, bool) and a.view in ('uint', 'int'):
+                    w = len(pa_)
+                    lo_, hi_ = (0, 1 << w) if a.view == 'uint' else (-(1 << (w - 1)), 1 << (w - 1))
+                    if not lo_ <= b.v < hi_:
+                        return False
+                    pb_ = format(b.v & ((1 << w) - 1), f'0{w}b') if w else ''
                 else:
                     return None
             else:
@@ -729,6 +735,17 @@ class Interp:
         pa, pb = as_poly(a), as_poly(b)
         if pa is not None and pb is not None:
             return self.int_cond(op, pa, pb)
+        # a symbolic quantity with known bounds against a constant
+        for x, y, flip in ((a, b, False), (b, a, True)):
+            bnd = getattr(x, 'bounds', None)
+            if bnd is not None and isinstance(y, K) and isinstance(y.v, int):
+                lo, hi = bnd
+                tt = {ast.Lt: ast.Gt, ast.LtE: ast.GtE, ast.Gt: ast.Lt, ast.GtE: ast.LtE}[t] if flip else t
+                c = y.v
+                if tt is ast.GtE and lo >= c or tt is ast.Gt and lo > c or (hi is not None and (tt is ast.LtE and hi <= c or tt is ast.Lt and hi < c)):
+                    return K(True)
+                if hi is not None and (tt is ast.GtE and hi < c or tt is ast.Gt and hi <= c) or tt is ast.LtE and lo > c or tt is ast.Lt and lo >= c:
+                    return K(False)
         return Cond(('cmp', t.__name__, repr(self.vkey(a)), repr(self.vkey(b))), True,
                     f'{vrepr(a)[:40]} {t.__name__} {vrepr(b)[:40]}')
 
@@ -809,6 +826,14 @@ class Interp:
                     if m is not None:
                         return self.invoke(FuncRef(m, c.module, c), [x, y], {})
         if t is ast.Mult:
+            for x, y in ((a, b), (b, a)):
+                xb = x.native if isinstance(x, Inst) and isinstance(x.native, BA) and x.cls is None else x
+                if isinstance(xb, BA) and isinstance(y, K) and isinstance(y.v, int) and not isinstance(y.v, bool):
+                    self.allocation(len(xb) * max(0, y.v), node)
+                    r = BA()
+                    for _ in range(max(0, y.v)):
+                        r.extend(xb)
+                    return r
             # sequence repetition: the size of the result is work / memory the interpreted program spends
             for x, y in ((a, b), (b, a)):
                 if isinstance(y, K) and isinstance(y.v, int) and not isinstance(y.v, bool):
@@ -980,6 +1005,8 @@ class Interp:
         return Term('slice', v, lo, hi, st)
 
     def getitem(self, v, i, n):
+        if isinstance(i, SliceV):
+            return self.getslice(v, i.lo, i.hi, i.st, n)      # x[slice(a, b)] is x[a:b]
         hook = getattr(v, 'abs_item', None)
         if hook is not None:
             return hook(self, i, n)
@@ -1519,9 +1546,16 @@ class Interp:
             # functools.lru_cache / cache: the result of an earlier call with *equal* arguments is returned again - equality being the
             # arguments' own __eq__ (objects without one: identity), exactly as the cache's dictionary lookup decides it
             table = self.__dict__.setdefault('_memo_tables', {}).setdefault(f.qual, [])
+            def same(x, y):
+                r = self.cmp(ast.Eq(), x, y, f.node)
+                if isinstance(r, K):
+                    return bool(r.v)
+                if getattr(self, 'INJECTIVE_KEYS', True):
+                    return False        # the cache is a dictionary: distinct symbolic arguments denote distinct keys
+                return self.truth(r, f.node)
             for a0, k0, r0 in table:
                 if len(a0) == len(args) and sorted(k0) == sorted(kw) and \
-                        all(self.truth(self.cmp(ast.Eq(), x, y, f.node), f.node) for x, y in list(zip(a0, args)) + [(k0[k], kw[k]) for k in kw]):
+                        all(same(x, y) for x, y in list(zip(a0, args)) + [(k0[k], kw[k]) for k in kw]):
                     return r0
             r = self.invoke_body(f, args, kw)
             table.append((list(args), dict(kw), r))
